@@ -1235,8 +1235,147 @@ fn apply_op<I: Input>(i: &mut I, op: &str) -> String {
 	}
 }
 
+/// An inner input with an arbitrary `remaining_len` report that logs the hook calls it receives
+/// (what a wrapper forwards): the wrappers must count / limit correctly whatever the inner input
+/// says about its length, and must forward every hook.
+struct ProbeInput<'a> {
+	data: &'a [u8],
+	pos: usize,
+	/// 'x' exact, 'n' none, 'c' constant k, 'p' capped at k
+	mode: (char, usize),
+	/// reader-like: a failed read consumes what was left
+	short: bool,
+	log: Vec<String>,
+}
+impl Input for ProbeInput<'_> {
+	fn remaining_len(&mut self) -> Result<Option<usize>, parity_scale_codec::Error> {
+		let left = self.data.len() - self.pos;
+		Ok(match self.mode.0 {
+			'x' => Some(left),
+			'n' => None,
+			'c' => Some(self.mode.1),
+			_ => Some(left.min(self.mode.1)),
+		})
+	}
+	fn read(&mut self, into: &mut [u8]) -> Result<(), parity_scale_codec::Error> {
+		if into.len() > self.data.len() - self.pos {
+			if self.short {
+				self.pos = self.data.len();
+			}
+			return Err("eof".into());
+		}
+		into.copy_from_slice(&self.data[self.pos..self.pos + into.len()]);
+		self.pos += into.len();
+		Ok(())
+	}
+	fn descend_ref(&mut self) -> Result<(), parity_scale_codec::Error> {
+		self.log.push("d".into());
+		Ok(())
+	}
+	fn ascend_ref(&mut self) {
+		self.log.push("a".into());
+	}
+	fn on_before_alloc_mem(&mut self, size: usize) -> Result<(), parity_scale_codec::Error> {
+		self.log.push(format!("m{}", size));
+		Ok(())
+	}
+}
+
+fn gen_probe_ops(rng: &mut Rng, remaining: usize) -> Vec<String> {
+	let n = 1 + rng.below(14) as usize;
+	let mut rem = remaining;
+	(0..n)
+		.map(|_| match rng.below(10) {
+			0..=3 => {
+				let k = match rng.below(5) {
+					0 => 0,
+					1 => 1,
+					2 => rem,
+					3 => rem + 1 + rng.below(3) as usize,
+					_ => rng.below(rem as u64 + 1) as usize,
+				};
+				if k <= rem {
+					rem -= k;
+				}
+				format!("r{}", k)
+			},
+			4..=5 => {
+				rem = rem.saturating_sub(1);
+				"b".to_string()
+			},
+			6 => "l".to_string(),
+			7 => "d".to_string(),
+			8 => "a".to_string(),
+			_ => format!("m{}", match rng.below(4) { 0 => 0, 1 => usize::MAX, _ => rng.below(5000) as usize }),
+		})
+		.collect()
+}
+
+fn probe_ops_case(ctx: &mut Ctx, rng: &mut Rng) {
+	let len = rng.below(40) as usize;
+	let data: Vec<u8> = (0..len).map(|_| rng.below(256) as u8).collect();
+	let ops = gen_probe_ops(rng, len);
+	let k = match rng.below(4) {
+		0 => 0,
+		1 => len,
+		2 => len + 1 + rng.below(1000) as usize,
+		_ => rng.below(len as u64 + 1) as usize,
+	};
+	let mode = [('x', 0), ('n', 0), ('c', k), ('p', k)][rng.below(4) as usize];
+	let short = rng.chance(1, 2);
+	let mode_s = if mode.0 == 'x' || mode.0 == 'n' { mode.0.to_string() } else { format!("{}{}", mode.0, mode.1) };
+	let short_s = if short { "s" } else { "f" };
+	{
+		let mut probe = ProbeInput { data: &data, pos: 0, mode, short, log: vec![] };
+		let mut out = vec![];
+		{
+			let mut ci = CountedInput::new(&mut probe);
+			for op in &ops {
+				let r = apply_op(&mut ci, op);
+				out.push(format!("{}:{}", r, ci.count()));
+			}
+			let c = ci.count();
+			drop(ci);
+			// oracle (C19): the count is the number of bytes the wrapped input delivered, whatever it
+			// reports about its remaining length (a failed reader-like read delivers nothing it reports)
+			let delivered: usize = ops.iter().zip(out.iter()).map(|(op, o)| if o.starts_with('k') { if op == "b" { 1 } else if op.starts_with('r') { op[1..].parse::<usize>().unwrap() } else { 0 } } else { 0 }).sum();
+			if c != delivered as u64 {
+				ctx.oracle_fail("C19", format!("CountedInput over an inner input with remaining_len mode {}: count() = {} but {} bytes were delivered after ops {:?} on {}", mode_s, c, delivered, ops, hex_or_dash(&data)));
+			}
+		}
+		let ans = format!("{} | {} {}", out.join(" "), probe.data.len() - probe.pos, probe.log.join(","));
+		ctx.emit("countops2", "CountedInput<Probe>", &format!("cops2 {} {} {} {}", mode_s, short_s, hex_or_dash(&data), ops.join(" ")), &ans);
+	}
+	{
+		let limit = match rng.below(5) {
+			0 => 0,
+			1 => usize::MAX,
+			2 => 1,
+			_ => rng.below(10000) as usize,
+		};
+		let mut probe = ProbeInput { data: &data, pos: 0, mode, short, log: vec![] };
+		let mut out = vec![];
+		{
+			let mut mi = MemTrackingInput::new(&mut probe, limit);
+			for op in &ops {
+				let r = apply_op(&mut mi, op);
+				out.push(format!("{}:{}", r, mi.used_mem()));
+			}
+		}
+		let ans = format!("{} | {} {}", out.join(" "), probe.data.len() - probe.pos, probe.log.join(","));
+		ctx.emit("memops2", "MemTrackingInput<Probe>", &format!("mops2 {} {} {} {} {}", limit, mode_s, short_s, hex_or_dash(&data), ops.join(" ")), &ans);
+	}
+}
+
 fn wrapops_stream(ctx: &mut Ctx) {
 	let mut rng = Rng::new(ctx.seed ^ 0x0B5);
+	{
+		let mut prng = Rng::new(ctx.seed ^ 0x9B0B);
+		let n = if ctx.tier_thorough { 40_000 } else { 4_000 };
+		for _ in 0..n {
+			probe_ops_case(ctx, &mut prng);
+		}
+	}
 	let n = if ctx.tier_thorough { 40_000 } else { 4_000 };
 	for _ in 0..n {
 		let len = rng.below(40) as usize;
